@@ -240,4 +240,20 @@ PROPS["C14"] = {
     "assumptions": ["standard transport"],
 }
 
+PROPS["C11"] = {
+    "modules": ["Hertz.Props.C11"],
+    "rule": "Requests built through the client API (8 methods x 8 URL shapes incl. query, userinfo, IPv6, dot segments x query args x headers x cookies x "
+            "body as bytes / stream of known or unknown length with trailer / form arguments; also proxy form) serialised by the real req.Write; and server "
+            "responses (status lines incl. bodiless and interim 100, 17 header-line shapes incl. obs-fold and malformed, fixed / chunked+trailer / until-close "
+            "bodies, size limit, HTTP/1.0) read by the real resp.ReadHeaderAndLimitBody over the scripted connection with EOF or stalled peer under random "
+            "segmentation, and under ALL two-way splits for a sample.",
+    "level_text": "Lean models of the request writer (header block model of C05 + body encodings of C04) and of the response reader (first line, scanner, 100-continue skip, "
+                  "fixed/chunked/identity bodies, limit) are compared with the real code on every case; theorems for all inputs: the size limit is enforced on every accepted "
+                  "response, bodiless statuses never carry a body. Spec step: every written request is read identically by the strict decoder, by the model of hertz's own "
+                  "server reader and by net/http; every conforming response comes back with the same status, fields and body.",
+    "level_note": _H1_NOTE + " HostClient.Do's pool/retry logic is C10; multipart bodies are mime/multipart's and only re-parsed by net/http; response streaming mode reuses the "
+                  "C14 body-stream model and is not separately compared here.",
+    "assumptions": ["net/http.ReadRequest as second opinion", "header values set by the application are free of control bytes (CR/LF are C05; NUL etc. are written verbatim)"],
+}
+
 NOT_CLAIMED = {}
